@@ -20,8 +20,8 @@ Print Assumptions C02_mtvrp_done_stable.
 
 (* an admitted action list none of whose proper prefixes is finished has at most 2n+1 actions, provided every
    customer can be served on a route of its own ([mtvrp_solvableb]: demand <= capacity, out-and-back (out only if
-   open) <= limit, reached before its window closes and back in time -- with the mask's own comparison, i.e.
-   STRICTLY for the shipped code R = false) *)
+   open) <= limit, reached by the time its window closes and back in time -- with the mask's own comparison: [<=]
+   for the code as it is, R = true) *)
 Theorem C02_mtvrp_bound :
   forall (R : bool) (i : mtvrp_inst) (acts : list nat),
     mtvrp_wfb i = true -> mtvrp_solvableb R i = true -> adm (E:=MTVRP exact R) i acts = true ->
@@ -39,20 +39,28 @@ Theorem C02_mtvrp_step_ok :
 Proof. exact mtvrp_step_ok. Qed.
 Print Assumptions C02_mtvrp_step_ok.
 
-(* the solvability hypothesis is needed, and its strictness is the shipped mask's: on the boundary instance (customer
-   reached exactly when its window closes; solvable for the repaired comparison, not for the shipped one) no
-   mask-confined episode of the shipped code ever finishes *)
+(* the solvability hypothesis is needed: a customer that cannot be reached before its window closes (travel time 80,
+   window end 79) is never offered and no mask-confined episode ever finishes *)
 Theorem C02_mtvrp_unsolvable_never_finishes :
+  mtvrp_wfb tw_late_inst = true /\ mtvrp_solvableb true tw_late_inst = false /\
+  forall acts, adm (E:=MTVRP exact true) tw_late_inst acts = true ->
+               done (MTVRP exact true) tw_late_inst (run (E:=MTVRP exact true) tw_late_inst acts) = false.
+Proof. exact mtvrp_unsolvable_never_finishes. Qed.
+Print Assumptions C02_mtvrp_unsolvable_never_finishes.
+
+(* HISTORY (recorded as fixed in known_findings.json, /repo 9b8ead8): with the former strict mask (R = false) the boundary
+   instance -- customer reached exactly when its window closes, solvable by the problem definition -- never finished *)
+Theorem C02_mtvrp_strict_mask_boundary_never_finished :
   mtvrp_wfb tw_eq_inst = true /\ mtvrp_solvableb false tw_eq_inst = false /\ mtvrp_solvableb true tw_eq_inst = true /\
   forall acts, adm (E:=MTVRP exact false) tw_eq_inst acts = true ->
                done (MTVRP exact false) tw_eq_inst (run (E:=MTVRP exact false) tw_eq_inst acts) = false.
 Proof. repeat (split; [vm_compute; reflexivity|]). exact mtvrp_tw_equality_never_served. Qed.
-Print Assumptions C02_mtvrp_unsolvable_never_finishes.
+Print Assumptions C02_mtvrp_strict_mask_boundary_never_finished.
 
 Example C02_mtvrp_nonvacuous :
   let i := {| dl := [0; 32; 32; 0]; db := [0; 0; 0; 40]; cap := 64; lim := 60; opn := false;
               tlo := [0; 0; 10; 0]; thi := [200; 50; 60; 90]; svc := [0; 2; 2; 2];
               dist := [[0; 5; 9; 16]; [5; 0; 4; 11]; [9; 4; 0; 7]; [16; 11; 7; 0]];
               tt := [[0; 5; 9; 16]; [5; 0; 4; 11]; [9; 4; 0; 7]; [16; 11; 7; 0]] |} in
-  mtvrp_wfb i = true /\ mtvrp_solvableb false i = true /\ adm (E:=MTVRP exact false) i [1; 0; 2; 0; 3]%nat = true.
+  mtvrp_wfb i = true /\ mtvrp_solvableb true i = true /\ adm (E:=MTVRP exact true) i [1; 0; 2; 0; 3]%nat = true.
 Proof. vm_compute. auto. Qed.
